@@ -140,7 +140,7 @@ pub fn judge_point(ctx: &mut Ctx, nside: u32, lon: f64, lat: f64) {
     ctx.eval();
     match catch(|| ring::sph_coo(nside, h, dx, dy)) {
       Err(p) => ctx.violation("ring::sph_coo-panics-on-returned-offsets", mk(), p),
-      Ok(p) => { let d = dist(p, (lon, lat)); ctx.worst_max("sph_coo(hash_with_dxdy)_rad", d); if d > 1e-13 { ctx.violation("ring::sph_coo-does-not-invert-hash_with_dxdy", mk(), format!("h={} dx={} dy={} -> {:?} d={:e}", h, dx, dy, p, d)); } }
+      Ok(p) => { let d = dist(p, (lon, lat)); if lon.abs() < 50.0 { ctx.worst_max("sph_coo(hash_with_dxdy)_rad", d); } if d > far_tol(1e-13, lon) { ctx.violation("ring::sph_coo-does-not-invert-hash_with_dxdy", mk(), format!("h={} dx={} dy={} -> {:?} d={:e}", h, dx, dy, p, d)); } }
     }
   }
   if !pc.is_empty() || lc != "lon-std" { ctx.hard(&format!("point:{}", cls), &[ns, lon.to_bits(), lat.to_bits()]); if ctx.samples.len() < 10 && ctx.evals % 23 == 0 { ctx.sample(&mk(), &format!("h={} dx={} dy={}", h, dx, dy)); } }
